@@ -168,6 +168,10 @@ Proof.
       change (map (enc md5) (t0 :: ts0)) with (enc md5 t0 :: map (enc md5) ts0) in *.
       rewrite E1. destruct (run_seq (enc md5 t0 :: map (enc md5) ts0) (xm m)) as [[os m1]|].
       2:{ exists (xobjs m). split; [intros i Hi; auto|reflexivity]. }
+      assert (Hno : lookup_id id o1 = None).
+      { destruct (lookup_id id o1) eqn:El; [|reflexivity]. exfalso.
+        destruct (G1 id) as [H|H]; [congruence|apply H; exact Hid|apply Hnin; exact H]. }
+      cbn [xobjs mkx]. rewrite Hno.
       unfold xmemoize. cbn [xm xobjs xglobals mkx]. unfold memoize.
       exists ((id, mnext m1) :: o1). split.
       * intros i Hi. cbn [lookup_id] in Hi. destruct (id =? i) eqn:Ei.
